@@ -294,14 +294,15 @@ def grad_diff(ans, a, n=1, axis=-1):
             return anp.concatenate((-g[tuple(sl1)], -anp.diff(g, axis=axis), g[tuple(sl2)]), axis=axis)
         shape = list(ans_shape)
         shape[axis] = 1
-        return anp.zeros(shape)
+        return anp.zeros(shape, dtype=anp.result_type(g))
 
     def helper(g, n):
         if n == 0:
             return g
         return helper(undiff(g), n - 1)
 
-    return lambda g: helper(g, n)
+    # differencing an axis that is already empty leaves it empty: only min(n, length) steps are undone
+    return lambda g: helper(g, min(n, anp.shape(a)[axis]))
 
 
 defvjp(anp.diff, grad_diff)
